@@ -19,16 +19,18 @@ LEVEL = "exploration"
 RULE = (
     "Metamorphic. Universe of truthy atoms {7001, 'qa', 'nn', (1,), [1], {'k':1}} (plus fixed points 7002, 'zz') and a bijection sigma of a "
     "non-empty subset U onto falsy atoms that preserves ==/hashability: 7001 -> exactly one of 0 / 0.0 / False, 'qa' -> '', 'nn' -> None, "
-    "(1,) -> (), [1] -> [], {'k':1} -> {}. Every case is run twice on the real library: on the truthy inputs and on sigma(inputs); "
+    "(1,) -> (), [1] -> [], {'k':1} -> {}; ALTERNATIVELY (round 8) the unhashable falsy containers take a HASHABLE truthy partner, 'ul' -> [] and 'ud' -> {} "
+    "(one partner per falsy atom and case), so that an operator which compares/remembers hashable and unhashable elements differently shows up: nothing in the "
+    "statement lets hashability matter, and every operator form of the table handles elements opaquely (==, identity, callbacks on the canonical form). Every case is run twice on the real library: on the truthy inputs and on sigma(inputs); "
     "value-carrying arguments (start_with, default_if_empty, contains, *_or_default defaults, seeds, zip_with_iterable values, publish_value / "
     "BehaviorSubject initial value) are mapped by sigma too and every hash-based user callback decides on the pair-collapsed form of its "
     "arguments, so both runs take identical decisions. Checks: `each_op` ENUMERATES every operator of the shared table (1-3 fixed argument "
-    "forms each, 169 forms over all 128 operators) x each of the 8 falsy atoms x 7 input patterns (mixed, falsy element pending at completion, single, repeated "
+    "forms each, 169 forms over all 128 operators) x each of the 8 falsy atoms (+ [] and {} once more with their hashable string partner: 10 atom forms) x 7 input patterns (mixed, falsy element pending at completion, single, repeated "
     "same-instant, error, empty, never-ending; cold and hot) plus identity-key forms of group_by / group_by_until / to_dict for the hashable atoms "
     "(the falsy element is itself the key); `impure_eq` enumerates default-== operators (distinct, distinct_until_changed, contains, "
     "sequence_equal) behind 15 aggregate/buffer/timestamp producers merged with atoms of every sigma pair the producer's own outputs cannot "
-    "collide with (None next to count 0, '' next to False, () next to [], ...); `each_subject` enumerates Behavior/Replay(unbounded, size 1, window)/Async/plain "
-    "subjects x 8 atoms x 4 scripts x 8 operator chains (none, delay, skip_last, pairwise, take_last, buffer_with_count, take_last_buffer, "
+    "collide with (None next to count 0, '' next to False, () next to [], ...; both partner forms of [] and {}); `each_subject` enumerates Behavior/Replay(unbounded, size 1, window)/Async/plain "
+    "subjects x 10 atom forms x 4 scripts x 8 operator chains (none, delay, skip_last, pairwise, take_last, buffer_with_count, take_last_buffer, "
     "sample) with subscribers arriving before, during and after the script; `pipelines` draws random well-kinded pipelines (<=4 / <=6 "
     "operators, 1-3 sources); `per_op` draws one operator uniformly with random arguments on a 4-8 element falsy-rich input; `subjects` "
     "draws subject scripts with 1-3 subscribers (random arrival/unsubscribe times) behind random operator chains. Oracle: every probe and "
@@ -37,6 +39,8 @@ RULE = (
     "on_next. Distinct = distinct case JSON."
 )
 ASSUMPTIONS = [
+    "hashability-crossing pairs ('ul' -> [], 'ud' -> {}): relies on the shared operator table never hashing / iterating / indexing a raw element itself (to_set, to_dict, group_by, starmap, pluck "
+    "go through hash-of-canonical-form callbacks or wrappers there); identity-key forms (@group_by_id ...) are not run with [] / {} in either partner form",
     "operators relying on default == (distinct, distinct_until_changed, contains, sequence_equal without key/comparer) keep it unless an upstream operator can produce "
     "values of its own that collide with a pair of the case's sigma (0/False/counts with the zero class, find's None with None, empty buffers with [], to_dict's {} with {}, "
     "notifications with everything): there the falsy atom legitimately equals the operator-made value while its truthy partner does not, so the metamorphic relation does not "
@@ -57,7 +61,12 @@ PAIRS = {
     "list": "l1",  # -> l
     "dict": "dk",  # -> d
 }
-FALSY_OF = {"str": "s", "none": "none", "tup": "t", "list": "l", "dict": "d"}
+FALSY_OF = {"str": "s", "none": "none", "tup": "t", "list": "l", "dict": "d", "ulist": "l", "udict": "d"}
+# hashability-CROSSING pairs: a hashable truthy string stands in for the unhashable falsy container.  Every operator form of the shared
+# table treats elements opaquely (==, identity, user callbacks on the canonical form), so whether an element can be hashed must not show.
+XPAIRS = {"ulist": "x:ul", "udict": "x:ud"}  # -> l, d
+TRUTHY_OF = dict(PAIRS, **XPAIRS)
+ALIAS = {"ulist": "list", "udict": "dict"}  # same falsy atom, hence the same collisions with operator-made values
 FIXED = ["n:7002", "x:zz"]
 DOMAIN = list(PAIRS.values()) + FIXED  # truthy-run value names
 
@@ -117,7 +126,9 @@ def _sigma(u):
     if u.get("num"):
         m[PAIRS["num"]] = u["num"]
     for p in u["pairs"]:
-        m[PAIRS[p]] = FALSY_OF[p]
+        m[TRUTHY_OF[p]] = FALSY_OF[p]
+    if len(set(m.values())) != len(m):
+        raise HarnessError("sigma not injective")
     if not m:
         raise HarnessError("empty sigma")
     return m
@@ -216,7 +227,7 @@ DEFAULT_EQ = {"distinct": "k", "distinct_until_changed": "k", "contains": "c", "
 
 
 def _sigma_pairs(u):
-    return set(u["pairs"]) | ({"num"} if u.get("num") else set())
+    return {ALIAS.get(p, p) for p in u["pairs"]} | ({"num"} if u.get("num") else set())
 
 
 def _guard_default_eq(ops_list, u):
@@ -353,19 +364,23 @@ def _run_pipeline(case):
         cls.append("identity-key-form")
     for t, f in sig.items():
         cls.append("falsy:" + f)
+    if any(t in sig for t in XPAIRS.values()):
+        cls.append("hashable-truthy->unhashable-falsy")
+        cls += ["xhash+" + c for c in _default_eq_classes(pt["ops"])]
     d = _first_diff(a, b)
     if d:
         return FAIL(f"diverges|{_culprits(names)}", f"{d}; sigma={sig}; truthy={pT.trace()[:12]} falsy={pF.trace()[:12]}; case={case}", classes=cls)
     return OK(nontrivial, cls)
 
 
-_u_full = st.fixed_dictionaries({"num": st.sampled_from(["i0", "f0", "false"]), "pairs": st.just(sorted(FALSY_OF))})
+_pairs_full = st.tuples(st.sampled_from(["list", "ulist"]), st.sampled_from(["dict", "udict"])).map(lambda t: sorted(("str", "none", "tup") + t))
+_u_full = st.fixed_dictionaries({"num": st.sampled_from(["i0", "f0", "false"]), "pairs": _pairs_full})
 _u_part = st.fixed_dictionaries(
     {
         "num": st.sampled_from(["i0", "f0", "false", None]),
         "pairs": st.lists(st.sampled_from(sorted(FALSY_OF)), unique=True, max_size=5).map(sorted),
     }
-).filter(lambda u: u["num"] or u["pairs"])
+).filter(lambda u: (u["num"] or u["pairs"]) and len({FALSY_OF[p] for p in u["pairs"]}) == len(u["pairs"]))
 _u = st.one_of(_u_full, _u_full, _u_part)
 
 
@@ -472,7 +487,7 @@ PATTERNS = {
     "empty": [[2, "C", None]],
     "open": [[1, "N", H], [3, "N", H]],  # never terminates
 }
-ATOMS = {"i0": "num", "f0": "num", "false": "num", "s": "str", "none": "none", "t": "tup", "l": "list", "d": "dict"}
+ATOMS = {"i0": "num", "f0": "num", "false": "num", "s": "str", "none": "none", "t": "tup", "l": "list", "d": "dict", "l<-str": "ulist", "d<-str": "udict"}
 
 
 def _subst(x, hero, main):
@@ -491,9 +506,9 @@ def _each_cases(tier):
     for name in sorted(table):
         for fi, args in enumerate(table[name]):
             for atom, pair in ATOMS.items():
-                if name.startswith("@") and pair in ("list", "dict"):
+                if name.startswith("@") and pair in ("list", "dict", "ulist", "udict"):
                     continue  # identity keys must be hashable
-                hero = PAIRS[pair]
+                hero = TRUTHY_OF[pair]
                 for pat, tl in PATTERNS.items():
                     for kind in ("cold", "hot") if pat in ("mix", "tail") else ("cold",):
                         tl_ = _subst(tl, hero, None)
@@ -523,9 +538,9 @@ def _impure_eq_cases(tier):
     for prod, pargs in sorted(_PRODUCERS.items()):
         for eq in _EQ_FORMS:
             for atom, pair in ATOMS.items():
-                if pair in COLLIDES[prod]:
+                if ALIAS.get(pair, pair) in COLLIDES[prod]:
                     continue  # this producer's outputs may legitimately equal that falsy atom but not its truthy partner
-                hero = PAIRS[pair]
+                hero = TRUTHY_OF[pair]
                 u = {"num": atom if pair == "num" else None, "pairs": [] if pair == "num" else [pair]}
                 for pat in ("empty", "mix"):
                     main = {"kind": "cold", "tl": _subst(PATTERNS[pat], hero, None)}
@@ -614,7 +629,7 @@ SUBJ_OPS = [[], [["delay", {"d": 1}]], [["skip_last", {"n": 1}]], [["pairwise", 
 def _each_subject_cases(tier):
     for ki, k in enumerate(SUBJ_KINDS):
         for atom, pair in ATOMS.items():
-            hero = PAIRS[pair]
+            hero = TRUTHY_OF[pair]
             u = {"num": atom if pair == "num" else None, "pairs": [] if pair == "num" else [pair]}
             for sn, script in SUBJ_SCRIPTS.items():
                 for oi, ops_ in enumerate(SUBJ_OPS):
